@@ -242,12 +242,22 @@ def read(obj, strict=False, counts=None):
 
 
 class Writer(object):
-    def __init__(self, rng=None):
+    def __init__(self, rng=None, script=None):
         self.r = rng
         self.log = Counter()
+        self.script = script
+        self.trace = []
 
     def pick(self, dim, options):
-        o = options[0] if self.r is None else self.r.choice(options)
+        pos = len(self.trace)
+        if self.script is not None and pos < len(self.script):
+            i = self.script[pos] % len(options)
+        elif self.r is None:
+            i = 0
+        else:
+            i = self.r.randrange(len(options))
+        o = options[i]
+        self.trace.append((dim, i, o))
         self.log['%s=%s' % (dim, o)] += 1
         return o
 
